@@ -450,6 +450,19 @@ def main():
                     cov["rule"] = cfg.get("rule", b.get("bound", ""))
                     cov["exhaustive"] = True
                     cov["samples"] += [{"driver": b["driver"], "case": x} for x in (j.get("samples") or [])[:5]]
+                # known-finding candidates classified by the driver: excused only while the finding is OPEN in known_findings.json
+                for fid, cand in (j.get("kf_candidates") or {}).items():
+                    if not cand or not cand.get("count"):
+                        continue
+                    openf = [f for f in known.get("findings", []) if f.get("id") == fid and f.get("status") == "open" and f.get("property") == args.prop and b["driver"].rsplit("_", 1)[0] in (f.get("driver") or "")]
+                    if openf:
+                        line = "KNOWN-FINDING: property=%s %s: %s (%d enumerated inputs match, e.g. %s)" % (args.prop, fid, openf[0].get("what_fails", ""), cand["count"], json.dumps(cand.get("example"))[:300])
+                        if line not in kf_lines:
+                            kf_lines.append(line)
+                        if fid not in cov["known_findings_matched"]:
+                            cov["known_findings_matched"].append(fid)
+                    else:
+                        j.setdefault("failures", []).append(cand.get("example"))
                 if j.get("hangs") and not j.get("failures"):
                     undecided.append("bounded driver %s: %d program(s) did not finish within the watchdog limit, e.g. %s" % (b["driver"], len(j["hangs"]), j["hangs"][0]))
                 if j.get("failures"):
